@@ -91,12 +91,20 @@ WideTypes(dummy) == { St(<<U(k, "t"), p>>) : k \in 1..7, p \in WidePrims }
                     \* delimited types, an octet array inside a delimited sibling followed by further fields
                     \cup { St(<<d>>) : d \in {DComp, DUn, DArr} } \cup { St(<<St(<<d>>)>>) : d \in {DComp, DUn} }
                     \cup { St(<<Fix(d, 2), Bool>>) : d \in {DComp, DUn, DArr} } \cup { St(<<Var(d, 2), U(8, "s")>>) : d \in {DComp, DArr} }
-                    \cup { St(<<U(5, "t"), DArr, U(8, "s")>>), St(<<DArr, Bool>>), Un(<<Bool, DArr>>), Del(St(<<DArr, U(8, "s")>>), 64) }
+                    \cup { St(<<U(5, "t"), DArr, U(8, "s")>>), St(<<DArr, Bool>>), Un(<<Bool, DArr>>), Del(St(<<DArr, U(8, "s")>>), 96) }
 PickWide == ph = 0 /\ Wide /\ \E t \in WideTypes(0) : case' = [ty |-> t] /\ out' = 0 /\ ph' = Growth + 1
 Next == Pick \/ PickWide \/ Grow \/ Complete
 Spec == Init /\ [][Next]_vars
 
 Done == ph = 100
+\* every delimited type of the universe is a legal one: a byte-multiple extent not below its longest representation
+RECURSIVE ExtentsLegal(_)
+ExtentsLegal(t) ==
+  CASE t.k \in {"fix", "var"} -> ExtentsLegal(t.e)
+    [] t.k \in {"st", "un"} -> \A j \in DOMAIN t.f : ExtentsLegal(t.f[j])
+    [] t.k = "del" -> t.x % 8 = 0 /\ t.x >= MaxOf(BLS(t.inner)) /\ ExtentsLegal(t.inner)
+    [] OTHER -> TRUE
+UniverseLegal == ExtentsLegal(case.ty)
 -----------------------------------------------------------------------------
 (* C06 *)
 RoundTrip ==
